@@ -20,9 +20,13 @@ Verdict(t) == IF t.req.level = "h2" THEN H2Judge(t.req.hdrs[1], t.raised, t.h2)
               ELSE Judge(t.req.level, t.req, t.raised, t.wire)
 Class(t) == IF t.req.level = "h2" THEN H2Expect(t.req.hdrs[1]) ELSE Expect(t.req.level, t.req)
 
+Why(t) == ReasonTag(IF t.req.level = "h2" THEN H2RefuseReasons(t.req.hdrs[1]) ELSE RefuseReasons(t.req.level, t.req))
+
 TNext == /\ tid <= Len(Traces)
          /\ LET v == Verdict(Traces[tid]) IN
-            PrintT(<<"VERDICT", tid, v.hard, IF v.exact THEN "exact" ELSE "inexact", Class(Traces[tid])>>)
+            \* one plain string per trace (TLC never wraps a string; tuples longer than 80 columns are wrapped)
+            PrintT("VERDICT|" \o ToString(tid) \o "|" \o v.hard \o "|" \o (IF v.exact THEN "exact" ELSE "inexact")
+                   \o "|" \o Class(Traces[tid]) \o "|" \o Why(Traces[tid]))
          /\ tid' = tid + 1
 TSpec == TInit /\ [][TNext]_tid
 =============================================================================
